@@ -1041,12 +1041,9 @@ impl SparqlDatabase {
                         (object_raw, vec![])
                     };
 
-                    let subject =
-                        this.resolve_query_term(&Self::clean_turtle_term(s_raw), &this.prefixes);
-                    let predicate =
-                        this.resolve_query_term(&Self::clean_turtle_term(p_raw), &this.prefixes);
-                    let object = this
-                        .resolve_query_term(&Self::clean_turtle_term(&object_part), &this.prefixes);
+                    let subject = this.resolve_turtle_term(s_raw);
+                    let predicate = this.resolve_turtle_term(p_raw);
+                    let object = this.resolve_turtle_term(&object_part);
 
                     // Emit the main triple
                     if subject.starts_with("<<") || object.starts_with("<<") {
@@ -1075,15 +1072,8 @@ impl SparqlDatabase {
                         let qt_str = format!("<< {} {} {} >>", subject, predicate, object);
                         let qt_id = this.encode_term_star(&qt_str);
 
-                        let ann_p_id = this.encode_term_star(&this.resolve_query_term(
-                            &Self::clean_turtle_term(ann_pred),
-                            &this.prefixes,
-                        ));
-                        let ann_o_id =
-                            this.encode_term_star(&this.resolve_query_term(
-                                &Self::clean_turtle_term(ann_obj),
-                                &this.prefixes,
-                            ));
+                        let ann_p_id = this.encode_term_star(&this.resolve_turtle_term(ann_pred));
+                        let ann_o_id = this.encode_term_star(&this.resolve_turtle_term(ann_obj));
 
                         let ann_triple = Triple {
                             subject: qt_id,
@@ -1245,6 +1235,18 @@ impl SparqlDatabase {
         }
 
         tokens
+    }
+
+    /// Only a bare prefixed name is subject to prefix expansion: an `<iri>` or a "literal" is
+    /// already complete, whatever its text looks like.
+    fn resolve_turtle_term(&self, raw: &str) -> String {
+        let cleaned = Self::clean_turtle_term(raw);
+        let raw = raw.trim();
+        if raw.starts_with('<') || raw.starts_with('"') {
+            cleaned
+        } else {
+            self.resolve_query_term(&cleaned, &self.prefixes)
+        }
     }
 
     fn clean_turtle_term(term: &str) -> String {
